@@ -1,6 +1,7 @@
 package main
 
 import (
+	"bytes"
 	"context"
 	"crypto/sha256"
 	"crypto/sha512"
@@ -8,7 +9,9 @@ import (
 	"encoding/json"
 	"fmt"
 	"hash"
+	"io"
 	"math/rand/v2"
+	"net/http"
 	"strings"
 	"time"
 
@@ -24,7 +27,7 @@ var (
 	offsets    = []time.Duration{0, time.Second, 5 * time.Second, time.Minute}
 	maxAgeIATs = []time.Duration{0, 10 * time.Second, 5 * time.Minute}
 	maxAges    = []time.Duration{0, 30 * time.Second, 10 * time.Minute}
-	allAlgs    = []string{"RS256", "PS256", "ES256", "ES384", "RS512", "EdDSA"}
+	allAlgs    = []string{"RS256", "RS384", "RS512", "PS256", "PS384", "PS512", "ES256", "ES384", "ES512", "EdDSA"}
 	issuers    = []string{"https://op.example.com", "https://op.example.com/", "https://op.example.com/tenant/a", "http://localhost:9998/", "https://xn--op-jka.example/ü"}
 	clientIDs  = []string{"client-1", "web", "0oa1b2c3d4@apps.example", "urn:example:client:Ünï", "a b"}
 	acrSilver  = "urn:mace:incommon:iap:silver"
@@ -46,6 +49,12 @@ type cfg struct {
 	Algs      []string // nil: no WithSupportedSigningAlgorithms option
 	AlgsKind  string
 	CtxNonce  bool // the nonce function reads its value from the context handed to the verifier
+	// Route: how the verifier is obtained. "direct" = rp.NewIDTokenVerifier; "rp-oidc" = the IDTokenVerifier() of a relying
+	// party built by rp.NewRelyingPartyOIDC(..., rp.WithVerifierOpts(the same options)) against an in-memory discovery
+	// and JWKS endpoint; "rp-oidc+discovery-algs" = likewise, but the allow-list comes from the discovery document
+	// through rp.WithSigningAlgsFromDiscovery() instead of rp.WithSupportedSigningAlgorithms
+	Route      string
+	RouteOrder int // position of WithSigningAlgsFromDiscovery among the options (0 first, 1 last)
 }
 
 func (c *cfg) describe() map[string]any {
@@ -56,7 +65,7 @@ func (c *cfg) describe() map[string]any {
 	return map[string]any{
 		"issuer": c.Issuer, "client_id": c.ClientID, "offset": c.Offset.String(), "offset_by_option": c.OffsetOpt,
 		"max_age_iat": c.MaxAgeIAT.String(), "max_age": c.MaxAge.String(), "nonce_fn_returns": nonce, "nonce_by_option": c.NonceOpt,
-		"acr_allow_list": c.ACR, "acr_custom_fn": c.ACRCustom, "supported_algs": c.Algs, "algs_kind": c.AlgsKind,
+		"acr_allow_list": c.ACR, "acr_custom_fn": c.ACRCustom, "supported_algs": c.Algs, "algs_kind": c.AlgsKind, "verifier_obtained_through": c.Route,
 	}
 }
 
@@ -65,7 +74,7 @@ func (c *cfg) key() string {
 	if c.NonceFn {
 		n = "fn:" + c.NonceVal
 	}
-	return fmt.Sprintf("o=%s/%v,mi=%s,ma=%s,n=%s,acr=%d,algs=%s", c.Offset, c.OffsetOpt, c.MaxAgeIAT, c.MaxAge, n, len(c.ACR), c.AlgsKind)
+	return fmt.Sprintf("o=%s/%v,mi=%s,ma=%s,n=%s,acr=%d,algs=%s,via=%s", c.Offset, c.OffsetOpt, c.MaxAgeIAT, c.MaxAge, n, len(c.ACR), c.AlgsKind, c.Route)
 }
 
 type ctxKey struct{}
@@ -108,13 +117,54 @@ func (c *cfg) build(ks oidc.KeySet) (*rp.IDTokenVerifier, context.Context) {
 			opts = append(opts, rp.WithACRVerifier(oidc.DefaultACRVerifier(c.ACR)))
 		}
 	}
-	if c.Algs != nil {
+	fromDiscovery := c.Route == "rp-oidc+discovery-algs" && c.Algs != nil
+	if c.Algs != nil && !fromDiscovery {
 		opts = append(opts, rp.WithSupportedSigningAlgorithms(c.Algs...))
 	}
-	return rp.NewIDTokenVerifier(c.Issuer, c.ClientID, ks, opts...), ctx
+	if c.Route == "" || c.Route == "direct" {
+		return rp.NewIDTokenVerifier(c.Issuer, c.ClientID, ks, opts...), ctx
+	}
+	// through a relying party: the same options handed to rp.WithVerifierOpts must govern its ID token verifier
+	discAlgs := c.Algs
+	if !fromDiscovery {
+		discAlgs = allAlgs // what the provider advertises is irrelevant unless the RP was asked to follow it
+	}
+	ropts := []rp.Option{rp.WithHTTPClient(&http.Client{Transport: &discoveryRT{issuer: c.Issuer, algs: discAlgs}}), rp.WithVerifierOpts(opts...)}
+	if fromDiscovery {
+		if c.RouteOrder == 0 {
+			ropts = append([]rp.Option{rp.WithSigningAlgsFromDiscovery()}, ropts...)
+		} else {
+			ropts = append(ropts, rp.WithSigningAlgsFromDiscovery())
+		}
+	}
+	party, err := rp.NewRelyingPartyOIDC(context.Background(), c.Issuer, c.ClientID, "secret", "https://rp.example/cb", []string{"openid"}, ropts...)
+	if err != nil {
+		panic("c01 harness: relying party for " + c.Issuer + " cannot be built: " + err.Error())
+	}
+	return party.IDTokenVerifier(), ctx
+}
+
+// discoveryRT answers the discovery document of one issuer and, for every other URL, the JWKS of the key pool.
+type discoveryRT struct {
+	issuer string
+	algs   []string
+}
+
+func (d *discoveryRT) RoundTrip(req *http.Request) (*http.Response, error) {
+	var body []byte
+	if strings.HasSuffix(req.URL.Path, oidc.DiscoveryEndpoint) {
+		body, _ = json.Marshal(map[string]any{"issuer": d.issuer, "authorization_endpoint": "https://op.example.com/authorize", "token_endpoint": "https://op.example.com/token",
+			"jwks_uri": "https://op.example.com/c01-keys", "id_token_signing_alg_values_supported": d.algs, "response_types_supported": []string{"code"}, "subject_types_supported": []string{"public"}})
+	} else {
+		body = poolJWKS()
+	}
+	return &http.Response{StatusCode: 200, Status: "200 OK", Proto: "HTTP/1.1", ProtoMajor: 1, ProtoMinor: 1, Header: http.Header{"Content-Type": {"application/json"}},
+		Body: io.NopCloser(bytes.NewReader(body)), ContentLength: int64(len(body)), Request: req}, nil
 }
 
 func pick[T any](r *rand.Rand, xs ...T) T { return xs[r.IntN(len(xs))] }
+
+var routes = []string{"direct", "direct", "direct", "direct", "rp-oidc", "rp-oidc+discovery-algs"}
 
 // drawCfg draws a verifier configuration that allows alg (the breaking of the allow-list is a token-side choice).
 func drawCfg(r *rand.Rand, alg string) *cfg {
@@ -143,6 +193,7 @@ func drawCfg(r *rand.Rand, alg string) *cfg {
 	}
 	c.ACRCustom = c.ACR != nil && r.IntN(4) == 0
 	c.setAlgs(r, alg, true)
+	c.Route, c.RouteOrder = pick(r, routes...), r.IntN(2)
 	return c
 }
 
